@@ -21,6 +21,12 @@ try:
     sh("cmake --build %s/_build -j8 -- -k 0" % wt)
     rt = sh("ctest --test-dir %s/_build -j8 --timeout 900" % wt)
     tests_ok = rt.returncode == 0 and "100% tests passed" in rt.stdout
+    for _ in range(2):
+        # the suite has timing-based thread tests that fail on a heavily loaded machine (seen on the pristine tree too): a failure is
+        # re-run serially before it is held against the patch
+        if tests_ok: break
+        rt = sh("ctest --test-dir %s/_build -j1 --timeout 900" % wt)
+        tests_ok = rt.returncode == 0 and "100% tests passed" in rt.stdout
     r1 = sh("bash %s/demo/run.sh %s" % (out, wt), 900)
     demo_fails = r1.returncode != 0
     ok = pristine_ok and applied and tests_ok and demo_fails
